@@ -28,6 +28,7 @@ RULE += "; built-in exception classes (InvalidStateError, RuntimeError, LookupEr
 RULE += '; the decorated function may have been used under another event loop before; the callable may be a functools.partial or an object with an async __call__'
 RULE += '; returned exception instances; the calling task may have absorbed a cancel earlier'
 RULE += "; an earlier complete call from the same task; a busy loop turn after the function's last step (virtual CPU time)"
+RULE += "; a busy loop turn between the call and the function's first step; calls made first and awaited later / never"
 LEVEL_TEXT = (
     "Single-fault enumeration: the caller cancellation is injected at every instant of a complete integer time grid "
     "around the function's end and the deadline, for every outcome kind; the oracle is a case analysis on the earliest "
@@ -218,9 +219,37 @@ def _run_timed(case, inject_iter):
                 except TimeoutError:
                     pass  # (a zero timeout, rightly)
                 await asyncio.sleep(case["earlier"])
-            if case.get("swallowed_cancel") or case.get("earlier"):
+            coro = None
+            if case.get("deferred") is not None:
+                # the call is MADE now and awaited later (calls collected first, a call handed over to somebody else): making
+                # it starts nothing - the function starts, and its deadline counts, from the moment the call is awaited
+                coro = wrapped(7, k=8)
+                await asyncio.sleep(case["deferred"])
+                if case.get("never_awaited") == "task":
+                    handed = asyncio.get_running_loop().create_task(coro)
+                    handed.cancel()  # cancelled before its first step: the call is never awaited
+                    coro = None
+                    await asyncio.sleep(case["d"] + 1)
+                    return ("never", None)
+                if case.get("never_awaited"):
+                    if hasattr(coro, "close"):
+                        coro.close()  # given up (what a cancelled caller's clean-up does to a call it never awaited)
+                    coro = None
+                    await asyncio.sleep(case["d"] + 1)
+                    return ("never", None)
+            if case.get("swallowed_cancel") or case.get("earlier") or case.get("deferred") is not None:
                 holder["danced"].set_result(None)
                 await holder["go"]  # the judged call (and the generated cancellation of it) starts from here
+            if case.get("pre_busy"):
+                # a callback that is ALREADY queued when the call is made keeps the loop busy for `pre_busy` (virtual CPU
+                # time) before the function's first step: the deadline counts from the call, not from that first step
+                cur = asyncio.get_running_loop()
+                cur.call_soon(lambda: setattr(cur, "_vtime", cur._vtime + case["pre_busy"]))
+            if coro is not None:
+                try:
+                    return ("ret", await coro)
+                except BaseException as exc:  # noqa: BLE001 - the observation
+                    return ("exc", exc)
             try:
                 if case.get("in_scope"):
                     # the call is made from inside a scope (the library's normal habitat): same outcomes
@@ -245,7 +274,9 @@ def _run_timed(case, inject_iter):
 
             bg_task = loop.create_task(bg_caller())
             await asyncio.sleep(bg["lead"])
-        pre = bool(case.get("swallowed_cancel") or case.get("earlier"))
+        pre = bool(case.get("swallowed_cancel") or case.get("earlier") or (case.get("deferred") is not None and not case.get("never_awaited")))
+        if case.get("never_awaited"):
+            holder["danced"], holder["go"] = loop.create_future(), loop.create_future()
         if pre:
             holder["danced"], holder["go"] = loop.create_future(), loop.create_future()
         task = loop.create_task(caller())
@@ -314,8 +345,30 @@ def _run_timed(case, inject_iter):
         out.classes = ["cancel-at-iteration"]
         return out, res.iterations
 
+    if case.get("deferred") is not None:
+        if case.get("never_awaited"):
+            # the caller gave the call up before awaiting it (what cancelling a task before its first step does to the call it
+            # was handed): the function never started, or it was cancelled - it must not run on with nobody waiting for it
+            if flags["started"] is not None and flags["cancel_seen"] is None:
+                out.violate("cleanup", f"C16.cleanup/function-ran-on-although-the-call-was-given-up-before-it-was-awaited/{kind}", f"{flags}; case={case}")
+            out.classes = ["call-made-but-never-awaited"]
+            out.nontrivial = True
+            return out, res.iterations
+        if flags["started"] is not None and flags["started"] < holder.get("origin", 0):
+            # a wrapper that starts the function when the call is MADE: which instant the deadline counts from is not stated
+            out.unspecified.append("function-started-before-the-call-was-awaited")
+            return out, res.iterations
     # which branches are admissible: earliest of (c, tau, d); ties admit all tied
     events = {"tau": tau, "d": d}
+    if case.get("pre_busy"):
+        # the function starts (and the loop can look at its timers again) only after the busy turn
+        # (a wrapper may start the function within the call or in a task's first step after the busy turn: the observed start
+        # of the function decides when it finishes, the deadline counts from the call either way)
+        began = (flags["started"] - holder.get("origin", t0)) if flags["started"] is not None else case["pre_busy"]
+        events = {"tau": max(tau, case["pre_busy"]), "d": max(began + d, case["pre_busy"])}
+        if events["tau"] == events["d"] or c is not None or d == 0:
+            out.unspecified.append("pre-busy-tie")
+            return out, res.iterations
     if c is not None:
         events["c"] = c
     first = min(events.values())
@@ -446,6 +499,15 @@ def enumerate_cases(tier):
         yield {"d": d, "steps": 1, "outcome": "exc_falsy", "e": 2, "tau": tau, "c": c}
     for d, tau, c, kind, extra in itertools.product([0, 1, 3], [2], [None, 1], KINDS, [{"second_loop": True}, {"callable": "partial"}, {"callable": "object"}]):
         yield {"d": d, "steps": 1, "outcome": kind, "e": 2, "tau": tau, "c": c, **extra}
+    # the call is made first and awaited later / never
+    for d, tau, x, kind in itertools.product([0.5, 1], [0.75, 1.25], [0.25, 1.0, 2.0], ["value", "exc"]):
+        yield {"d": d, "steps": 1, "outcome": kind, "e": 2, "tau": tau, "c": None, "deferred": x}
+        yield {"d": d, "steps": 1, "outcome": kind, "e": 2, "tau": tau, "c": None, "deferred": x, "never_awaited": True}
+        yield {"d": d, "steps": 1, "outcome": kind, "e": 2, "tau": tau, "c": None, "deferred": x, "never_awaited": "task"}
+        yield {"d": d, "steps": 1, "outcome": kind, "e": 2, "tau": tau, "c": 0.25, "deferred": x}
+    # the loop is busy between the call and the function's first step
+    for d, tau, x, kind in itertools.product([0.5, 1], [0.75, 1.25, 2.0], [0.25, 0.5, 1.0, 1.5], ["value", "exc", "ignore"]):
+        yield {"d": d, "steps": 1, "outcome": kind, "e": 2, "tau": tau, "c": None, "pre_busy": x}
     # the function finishes strictly before the deadline, then the loop is busy across the deadline
     for d, tau, busy, kind in itertools.product([0.5, 1], [1.25, 1.5], [0.5, 1.0, 2.0], ["value", "exc", "base", "value_exc", "exc_timeout", "selfcancel_raise"]):
         yield {"d": d, "steps": 1, "outcome": kind, "e": 2, "tau": tau, "c": None, "busy": busy}
